@@ -83,6 +83,8 @@ def verdict_checks(run, sc, out, label):
         msg = getattr(c.comparator_status, 'message', None)
         if attributed_to is None and msg and msg.startswith('compared ') and ('compared %s with' % tag) not in msg:
             attributed_to = msg
+        if attributed_to is None and msg and msg.startswith('compared ') and sc.data_extractor and not msg.endswith('data=%s' % rid):
+            attributed_to = 'comparison data of another recording (%s)' % msg
         if attributed_to is not None:
             prev = [world.effective(world.tag_of[ids[j]]) for j in range(i)]
             cause = 'after-timeout' if any(p in ('worker_late_answer', 'worker_hang', 'worker_late_death') for p in prev) else ('after-worker-death' if any(p in ('worker_exit', 'worker_abort') for p in prev) or sc.idle_kill else 'other')
@@ -122,6 +124,7 @@ def _run(tape):
     kind = tape.draw(8)
     eps = tape.draw(len(EPS))
     sc = E.Scenario(tape, force_dedicated=True if placed else None)
+    sc.allow_kill_failure = True
     if placed:
         sc.n = min(sc.n, 6)
         sc.behaviours = ['equal'] * sc.n
